@@ -998,6 +998,11 @@ class Engine:
                 self._taskLaunched = None
                 self._exitReason = None
                 self.run()
+                # VV: Report that the engine is alive again right away. Otherwise the next emission is up to 5 seconds
+                # away; if the engine is killed in the meantime (e.g. the stage stops because another component
+                # failed) observers of the state updates never see it leave and re-enter the "dead" state, the owning
+                # ComponentState emits no POSTMORTEM update and never reaches its final state (the stage hangs).
+                self.emit_now()
                 restartCode = experiment.model.codes.restartCodes['RestartInitiated']
             except Exception as error:
                 self.log.warning("Unable to restart job - exception while attempting to run new job: %s" % str(error))
